@@ -17,6 +17,7 @@ type muxerSegment interface {
 }
 
 type muxerGap struct {
+	id       uint64 // media sequence number
 	duration time.Duration
 }
 
